@@ -278,8 +278,13 @@ impl Font {
             (FormatVersion::V3, g, k) => (g, k), // For v3, we do nothing.
             (_, None, k) => (None, k), // Without a groups.plist, there's nothing to upgrade.
             (_, Some(g), k) => {
+                // Only glyphs that exist tell a glyph name from a group name. The interning
+                // table `glyph_names` also holds component bases and the `name` attributes of
+                // the glif files, which may name glyphs that are not there.
+                let glyph_set: NameList =
+                    layers.iter().flat_map(|l| l.iter().map(|g| g.name().clone())).collect();
                 let (groups, kerning) =
-                    upconversion::upconvert_kerning(&g, &k.unwrap_or_default(), &glyph_names);
+                    upconversion::upconvert_kerning(&g, &k.unwrap_or_default(), &glyph_set);
                 validate_groups(&groups).map_err(FontLoadError::GroupsUpconversionFailure)?;
                 (Some(groups), Some(kerning))
             }
